@@ -2,6 +2,8 @@
 
 package syntax
 
+import "bytes"
+
 // Translator self-test (C09/C10): the repository's own test inputs are pushed
 // through the real parser and formatter twice — once inside the engine, once
 // by the native replay of the same harness — and must agree.
@@ -124,6 +126,17 @@ func selfDescribe(g CallGraphNode) string {
 		}
 		for _, r := range n.ForkRoots() {
 			sb = append(sb, ("  fork " + r.GoString() + "\n")...)
+		}
+		// in the order in which the serialized call graph lists them
+		for _, r := range n.Retained() {
+			sb = append(sb, ("  retained " + r.GoString() + "\n")...)
+		}
+		// the serialized form of the bindings (fork indices of references)
+		for _, k := range names {
+			var buf bytes.Buffer
+			if err := ins[k].EncodeJSON(&buf); err == nil {
+				sb = append(sb, ("  json " + k + " " + buf.String() + "\n")...)
+			}
 		}
 	}
 	return string(sb)
@@ -432,6 +445,226 @@ pipeline P(
 call P()
 `
 
+
+// programs whose compilation walks Go maps with several entries: the retained
+// outputs of a sub-pipeline, a comment before map entries written on one line,
+// nested map calls under one alias, and several errors of one kind at once
+var selfOrderSrcs = []string{
+	`
+filetype txt;
+
+stage S(
+    out txt a,
+    out txt b,
+    out txt c,
+    src comp "s",
+)
+
+pipeline INNER(
+    out txt a,
+    out txt b,
+    out txt c,
+)
+{
+    call S()
+
+    return (
+        a = S.a,
+        b = S.b,
+        c = S.c,
+    )
+}
+
+pipeline P(
+    out txt a,
+)
+{
+    call INNER()
+
+    return (
+        a = INNER.a,
+    )
+
+    retain (
+        INNER,
+    )
+}
+
+call P()
+`,
+	`
+stage S(
+    in  map m,
+    out int o,
+    src comp "s",
+)
+
+pipeline P(
+    out int o,
+)
+{
+    call S(
+        m = {
+            # about something
+            "b": 1, "a": 2, "c": 3, "d": 4,
+        },
+    )
+
+    return (
+        o = S.o,
+    )
+}
+
+call P()
+`,
+	`
+stage GEN(
+    out int[] xs,
+    src comp  "g",
+)
+
+stage A(
+    in  int x,
+    out int y,
+    src comp "a",
+)
+
+stage C(
+    in  int[][] x,
+    out int     o,
+    src comp    "c",
+)
+
+pipeline INNER(
+    in  int[] xs,
+    out int[] ys,
+)
+{
+    map call A as M(
+        x = split self.xs,
+    )
+
+    return (
+        ys = M.y,
+    )
+}
+
+pipeline TOP(
+    out int o,
+)
+{
+    call GEN()
+
+    map call INNER as M(
+        xs = split [
+            GEN.xs,
+            [
+                1,
+                2,
+            ],
+        ],
+    )
+
+    call C(
+        x = M.ys,
+    )
+
+    return (
+        o = C.o,
+    )
+}
+
+call TOP()
+`,
+	`
+stage S(
+    in  map<int> m,
+    out int      o,
+    src comp     "s",
+)
+
+pipeline P(
+    out int o,
+)
+{
+    call S(
+        m = {
+            "a": "x",
+            "b": "y",
+            "c": "z",
+        },
+    )
+
+    return (
+        o = S.o,
+    )
+}
+
+call P()
+`,
+	`
+struct ST(
+    int a,
+)
+
+stage S(
+    in  ST  s,
+    out int o,
+    src comp "s",
+)
+
+pipeline P(
+    out int o,
+)
+{
+    call S(
+        s = {
+            a: 1,
+            q: 2,
+            r: 3,
+            s: 3,
+        },
+    )
+
+    return (
+        o = S.o,
+    )
+}
+
+call P()
+`,
+	`
+stage S(
+    in  int a,
+    in  int b,
+    in  int c,
+    out int o,
+    src comp "s",
+) split (
+    in  int a,
+    in  int b,
+    in  int c,
+)
+
+pipeline P(
+    out int o,
+)
+{
+    call S(
+        a = 1,
+        b = 2,
+        c = 3,
+    )
+
+    return (
+        o = S.o,
+    )
+}
+
+call P()
+`,
+}
+
 // selfCompile compiles one program and renders everything computed.
 func selfCompile(src []byte) string {
 	var parser Parser
@@ -456,9 +689,10 @@ func selfCompile(src []byte) string {
 // H_SELF_compile: the repository's include-free test programs through the real
 // compiler and call-graph resolver, in the engine and natively.
 //
-// C10: the program is compiled twice inside the engine, with every range over
-// a Go map running in insertion order and in reverse insertion order; the
-// native replay uses Go's randomised order.  All must produce the same
+// C10: the program is compiled four times inside the engine, with every range
+// over a Go map running in insertion order, in reverse insertion order, and in
+// ascending and descending key order (string and integer keys); the native
+// replay uses Go's randomised order.  All must produce the same
 // formatted text and call graph.
 func H_SELF_compile(i int) {
 	var src []byte
@@ -477,16 +711,32 @@ func H_SELF_compile(i int) {
 	} else if i == len(selfCompileFiles)+3 {
 		src = []byte(selfCycleSrc)
 		name = "dependency cycle fixture"
-	} else {
+	} else if i == len(selfCompileFiles)+4 {
 		src = []byte(selfTwoErrorsSrc)
 		name = "two errors fixture"
+	} else {
+		k := i - len(selfCompileFiles) - 5
+		src = []byte(selfOrderSrcs[k])
+		name = "map order fixture " + string(rune('0'+k))
+		// (the engine does not run the package's test set-up, which raises
+		// the level; make both sides report what is reported as an error)
+		old := GetEnforcementLevel()
+		SetEnforcementLevel(EnforceError)
+		defer SetEnforcementLevel(old)
 	}
 	verifReverseMapOrder(false)
 	sum := selfCompile(src)
 	verifReverseMapOrder(true)
 	sum2 := selfCompile(src)
 	verifReverseMapOrder(false)
-	verifAssert(sum == sum2, "C10: compiling, formatting and resolving a repository test program gives the same result whatever the map iteration order (ghost)")
+	// two orders which do not cancel out when one map is filled by ranging
+	// over another: ascending and descending by key
+	verifKeyMapOrder(1)
+	sum3 := selfCompile(src)
+	verifKeyMapOrder(-1)
+	sum4 := selfCompile(src)
+	verifKeyMapOrder(0)
+	verifAssert(sum == sum2 && sum == sum3 && sum == sum4, "C10: compiling, formatting and resolving a repository test program gives the same result whatever the map iteration order (ghost)")
 	verifCover("self-test compiled")
 	verifCover("self-test compile " + name + " " + sum)
 }
